@@ -8,7 +8,7 @@ import eqsig
 from eqsig import im
 
 from pbt import gen
-from pbt.core import clause, enum_clause
+from pbt.core import clause, enum_clause, case_hash
 
 PROPERTY = "C09"
 CLAUSES = []
